@@ -8,6 +8,8 @@ package inprocgrpc
 //
 //@ func isNil
 //@   ensures[C06,C08] nil_interface_is_nil: m == nil ==> result
+//@   ensures[C08] other_values_are_inspected_by_reflection: m != nil ==> called("(reflect.Value).Kind") && lastarg("reflect.ValueOf", 0) == m
+//@   ensures[C08] a_nil_pointer_in_an_interface_counts_as_nil: called("(reflect.Value).Kind") ==> (result <==> lastresult("(reflect.Value).Kind") == 22 && called("(reflect.Value).IsNil") && lastresult("(reflect.Value).IsNil"))
 //@   modifies nothing
 //
 //@ func (frame).kind
@@ -91,6 +93,7 @@ package inprocgrpc
 //@   locks_only[C05] nothing
 //@   requires !closed(ch) && ch != nil
 //@   blocking_escape[C05,C04,C20] ctx
+//@   blocking_escape[C05] remoteCtx
 //@   ensures[C04,C05] only_nil_eof_or_the_context_error: result == nil || result == io.EOF || result == ctx_err(ctx)
 //@   ensures[C05] eof_only_when_the_remote_side_is_done: result == io.EOF ==> remoteCtx != nil
 //@   modifies nothing
@@ -101,6 +104,7 @@ package inprocgrpc
 //@   ensures[C04] success_only_with_a_live_context: result1 == nil ==> ctx_err(ctx) == nil
 //@   ensures[C04,C05] errors_are_eof_or_the_context_error: result1 == nil || result1 == io.EOF || (result1 == ctx_err(ctx) && result1 != nil)
 //@   ensures[C01] eof_only_when_the_channel_is_closed_and_drained: result1 == io.EOF ==> closed(ch)
+//@   ensures[C04] end_of_stream_only_after_the_context_was_seen_alive: result1 == io.EOF ==> called("context.Context.Err") && lastresult("context.Context.Err") == nil
 //@   modifies nothing
 
 // ---- the server goroutine of a unary call ----
@@ -119,6 +123,8 @@ package inprocgrpc
 //@   assert_call[C16,C10,C12] grpc.MethodDesc.Handler : registered_server_fresh_context_copying_decoder_transport_interceptor: arg0 == handler && arg1 == lastresult(grpc.NewContextWithServerTransportStream) && arg2 == codec && arg3 == c.unaryInterceptor && calls(makeServerContext) == 1
 //@   assert_call[C01,C05] writeMessage : on_the_reply_channel_with_the_server_context: arg0 == lastresult(grpc.NewContextWithServerTransportStream) && arg1 == nil && arg2 == ch
 //@   assert_call[C03,C01] writeMessage : headers_frame_only_first: arg3.headers != nil ==> !called(writeMessage) && arg3.data == nil && arg3.trailers == nil && arg3.err == nil && arg3.headers == lastresult("(*internal.UnaryServerTransportStream).GetHeaders")
+//@   assert_call[C08] isNil : of_the_handlers_response: arg0 == lastresult("grpc.MethodDesc.Handler", 0) && lastresult("grpc.MethodDesc.Handler", 1) == nil
+//@   assert_call[C08] writeMessage : a_nil_response_is_never_sent_as_data: arg3.headers == nil && arg3.data != nil ==> called(isNil) && !lastresult(isNil) && lastarg(isNil, 0) == arg3.data
 //@   assert_call[C08,C01,C02] writeMessage : data_frame_is_the_handlers_response: arg3.headers == nil && arg3.data != nil ==> arg3.data == lastresult("grpc.MethodDesc.Handler", 0) && lastresult("grpc.MethodDesc.Handler", 1) == nil && arg3.trailers == nil && arg3.err == nil && (!called(writeMessage) || (calls(writeMessage) == 1 && lastarg(writeMessage, 3).headers != nil))
 //@   assert_call[C03] writeMessage : trailers_frame_after_data_before_error: arg3.headers == nil && arg3.data == nil && arg3.trailers != nil ==> arg3.err == nil && arg3.trailers == lastresult("(*internal.UnaryServerTransportStream).GetTrailers") && (!called(writeMessage) || (lastarg(writeMessage, 3).trailers == nil && lastarg(writeMessage, 3).err == nil))
 //@   assert_call[C02,C08] writeMessage : error_frame_last_with_the_handlers_error: arg3.headers == nil && arg3.data == nil && arg3.trailers == nil ==> arg3.err != nil && (lastresult("grpc.MethodDesc.Handler", 1) != nil ==> arg3.err == lastresult("grpc.MethodDesc.Handler", 1)) && (lastresult("grpc.MethodDesc.Handler", 1) == nil ==> is_status_err(arg3.err) && err_status_code(arg3.err) == 13) && (!called(writeMessage) || lastarg(writeMessage, 3).err == nil)
@@ -257,6 +263,7 @@ package inprocgrpc
 //@   ensures[C01,C06] at_most_one_copy_into_the_callers_message: calls("inprocgrpc.Cloner.Copy") <= 1
 //@   assert_call[C06,C01] inprocgrpc.Cloner.Copy : into_the_callers_message: arg0 == s.cloner && arg1 == m
 //@   assert_call[C01,C06] inprocgrpc.Cloner.Copy : peeked_frame_first_else_the_frame_just_read: arg2 != nil && (!called(readMessage) ==> old(s.last) != nil && arg2 == old(s.last.data)) && (called(readMessage) ==> arg2 == lastresult(readMessage, 0).data)
+//@   ensures[C20,C01] no_frame_is_held_back_after_a_streaming_receive: !lastMessage && result == nil && old(s.last) == nil ==> s.last == nil
 //@   ensures[C01] a_peeked_message_is_delivered_exactly_once: !lastMessage && !called(readMessage) && called("inprocgrpc.Cloner.Copy") && lastresult("inprocgrpc.Cloner.Copy") == nil ==> s.last == nil
 //@   assert_call[C01,C08] (*inProcessClientStream).ensureNoMoreLocked : the_delivered_frame_was_consumed_before_probing: arg0 == s && arg1 == m && (!called(readMessage) ==> s.last == nil)
 //@   ensures[C04,C02] every_failure_before_a_message_is_translated: !called("inprocgrpc.Cloner.Copy") ==> called("internal.TranslateContextError") && result == lastresult("internal.TranslateContextError")
@@ -355,4 +362,63 @@ package inprocgrpc
 //@   ensures[C18] marshal_failure_is_returned_without_touching_the_destination: lastresult("encoding.Codec.Marshal", 1) != nil ==> result == lastresult("encoding.Codec.Marshal", 1) && !called("encoding.Codec.Unmarshal")
 //@   ensures[C18] unmarshal_result_is_returned: called("encoding.Codec.Unmarshal") ==> result == lastresult("encoding.Codec.Unmarshal")
 //@   ensures[C18] marshals_exactly_once: calls("encoding.Codec.Marshal") == 1
+//@   ensures[C18,C06] every_successful_marshal_is_decoded_into_the_destination: lastresult("encoding.Codec.Marshal", 1) == nil ==> calls("encoding.Codec.Unmarshal") == 1
 //@   modifies external
+
+// ---- configuration and thin wrappers ----
+//
+//@ func (*Channel).RegisterService
+//@   requires desc != nil
+//@   ensures[C15,C12] registered_in_the_channels_own_registry_once: calls("(grpchan.HandlerMap).RegisterService") == 1 && c.handlers != nil
+//@   assert_call[C15,C12] (grpchan.HandlerMap).RegisterService : arg0 == c.handlers && arg1 == desc && arg2 == svr && c.handlers != nil
+//@   modifies c.handlers, maps("grpchan.HandlerMap")
+//
+//@ func (*Channel).GetServiceInfo
+//@   requires keys_are_service_names: forall k string :: has(c.handlers, k) ==> c.handlers[k].desc != nil && c.handlers[k].desc.ServiceName == k
+//@   ensures[C15] no_registry_no_info: old(c.handlers) == nil ==> result == nil && !called("(grpchan.HandlerMap).GetServiceInfo")
+//@   ensures[C15] otherwise_the_registry_is_asked_once: old(c.handlers) != nil ==> calls("(grpchan.HandlerMap).GetServiceInfo") == 1
+//@   ensures[C15] and_its_answer_is_returned: called("(grpchan.HandlerMap).GetServiceInfo") ==> result == lastresult("(grpchan.HandlerMap).GetServiceInfo")
+//@   assert_call[C15] (grpchan.HandlerMap).GetServiceInfo : arg0 == c.handlers
+//@   modifies nothing
+//
+//@ func (*Channel).WithServerUnaryInterceptor
+//@   ensures[C16] result == c && c.unaryInterceptor == interceptor
+//@   modifies c.unaryInterceptor
+//
+//@ func (*Channel).WithServerStreamInterceptor
+//@   ensures[C16] result == c && c.streamInterceptor == interceptor
+//@   modifies c.streamInterceptor
+//
+//@ func (*Channel).WithCloner
+//@   ensures[C06,C18] result == c && c.cloner == cloner
+//@   modifies c.cloner
+//
+// The decode callback handed to a unary handler: copies the caller's request into
+// the handler's message through the channel's cloner (never hands over the request itself).
+//@ closure (*Channel).Invoke.codec
+//@   ensures[C06,C01] copies_the_request_once: calls("inprocgrpc.Cloner.Copy") == 1 && result == lastresult("inprocgrpc.Cloner.Copy")
+//@   assert_call[C06,C01] inprocgrpc.Cloner.Copy : request_into_the_handlers_message: arg0 == cloner && arg1 == out && arg2 == req
+//@   modifies everything
+//
+//@ func (*inProcessClientStream).Context
+//@   ensures[C04,C10] result == s.ctx
+//@   modifies nothing
+//
+//@ func (*inProcessServerStream).Context
+//@   ensures[C04,C10] result == s.ctx
+//@   modifies nothing
+//
+//@ func (*inProcessServerStream).SetHeader
+//@   ensures[C03] sets_without_sending: calls("(*inProcessServerStream).setHeader") == 1 && result == lastresult("(*inProcessServerStream).setHeader")
+//@   assert_call[C03] (*inProcessServerStream).setHeader : arg0 == s && arg1 == md && !arg2
+//@   modifies everything
+//
+//@ func (*inProcessServerStream).SendHeader
+//@   ensures[C03] sets_and_sends: calls("(*inProcessServerStream).setHeader") == 1 && result == lastresult("(*inProcessServerStream).setHeader")
+//@   assert_call[C03] (*inProcessServerStream).setHeader : arg0 == s && arg1 == md && arg2
+//@   modifies everything
+//
+//@ func (*inProcessServerStream).SetTrailer
+//@   ensures[C03] delegates_to_the_error_reporting_setter: calls("(*inProcessServerStream).TrySetTrailer") == 1
+//@   assert_call[C03] (*inProcessServerStream).TrySetTrailer : arg0 == s && arg1 == md
+//@   modifies everything
